@@ -100,9 +100,9 @@ if __name__ == "__main__":
         CHECKS.update(bounded_more.CHECKS)
     except ImportError:
         pass
-    try:
-        from native import bounded_opt
-        CHECKS.update(bounded_opt.CHECKS)
-    except ImportError:
-        pass
+    for extra in ("bounded_opt", "bounded_smt"):
+        try:
+            CHECKS.update(__import__("native." + extra, fromlist=["CHECKS"]).CHECKS)
+        except ImportError:
+            pass
     print(json.dumps(CHECKS[name](tier, seed), default=str))
